@@ -508,7 +508,7 @@ func init() {
 		}
 		jobs := []job{{"may01", 5, 50 * time.Second}, {"jan31", 4, 20 * time.Second}}
 		if ev.Tier() == "thorough" {
-			jobs = []job{{"may01", 6, 9 * time.Minute}, {"jan29", 4, 60 * time.Second}, {"jan30", 4, 60 * time.Second}, {"jan31", 5, 3 * time.Minute}}
+			jobs = []job{{"may01", 7, 10 * time.Minute}, {"jan29", 5, 75 * time.Second}, {"jan30", 5, 75 * time.Second}, {"jan31", 5, 75 * time.Second}}
 		}
 		exh := true
 		var bounds []string
